@@ -35,19 +35,28 @@ FRAG02: Dict[str, bool] = {}  # the same for C02's fragment (ShowFrag.case_in_F0
 FRAG: Dict[str, bool] = {}   # canonical case text -> the proved-fragment flag computed in Coq (ShowFrag.case_in_F01)
 
 
+def classes_of(c: dict) -> List[str]:
+    return [] if (c.get("flat") or c.get("sub")) else eqlgen.classes(c)
+
+
 def case_key(c: dict) -> str:
     return json.dumps(c, sort_keys=True)
 
 
 def coq_rows(prop: str, cases: List[dict], model_ok: bool) -> List[Tuple[Optional[list], list]]:
     """(model rows or None, spec rows) per case; also records the Coq-computed fragment flag in FRAG"""
+    # a case with flattened collections has no model (Flatten is not in Eql/Eval.v): its Spec is the first-order reading
+    # of eqlgen.spec_case, it is outside every proved fragment, and it is compared implementation vs Spec only
     if model_ok:
-        vals = core.coq_values(prop, eqlgen.HEADER, [f"rows_and_frags ({eqlgen.g_case(c)})" for c in cases], chunk=120)
+        vals = core.coq_values(prop, eqlgen.HEADER, [f"rows_and_frags ({eqlgen.g_case(eqlgen.spec_case(c))})" for c in cases], chunk=120)
+        out = []
         for c, v in zip(cases, vals):
-            FRAG[case_key(c)] = bool(v[2])
-            FRAG02[case_key(c)] = bool(v[3])
-        return [(v[0], v[1]) for v in vals]
-    vals = core.coq_values(prop, eqlgen.SPEC_ONLY_HEADER, [f"spec_rows ({eqlgen.g_case(c)})" for c in cases], chunk=120)
+            flat = bool(c.get("flat") or c.get("sub"))
+            FRAG[case_key(c)] = bool(v[2]) and not flat
+            FRAG02[case_key(c)] = bool(v[3]) and not flat
+            out.append((None if flat else v[0], v[1]))
+        return out
+    vals = core.coq_values(prop, eqlgen.SPEC_ONLY_HEADER, [f"spec_rows ({eqlgen.g_case(eqlgen.spec_case(c))})" for c in cases], chunk=120)
     return [(None, v) for v in vals]
 
 
@@ -222,7 +231,7 @@ def run_check(prop: str, tier: str, seed: int, replay: Optional[dict], *, profil
         for i in range(n):
             prof = profile
             if profile == "c01+quant":
-                prof = "quant" if i % 4 == 3 else "c01"
+                prof = "quant" if i % 4 == 3 else ("flat" if i % 8 == 1 else ("subq" if i % 8 == 5 else "c01"))
             cases.append(eqlgen.gen_case(rng.fork(i), prof, extras=True))
             origin.append(f"gen:{i}")
 
@@ -235,12 +244,17 @@ def run_check(prop: str, tier: str, seed: int, replay: Optional[dict], *, profil
     bad: List[Tuple[dict, Any, Any, Any, str]] = []
     stale_model = 0
     for c, o, i, (m, s) in zip(cases, origin, impl, ms):
-        cls = eqlgen.classes(c)
+        flat = bool(c.get("flat") or c.get("sub"))
+        cls = classes_of(c)
         infrag = in_fragment(c)
         dup = any(len(d) != len(set(d)) for d in c["doms"].values())
+        if flat:
+            kind = "flatten" if c.get("flat") else "subquery"
+            dist[kind + "_cases"] = dist.get(kind + "_cases", 0) + 1
+            dist[kind + "_nonempty"] = dist.get(kind + "_nonempty", 0) + int(bool(s))
         nontrivial = bool(s) and c["cond"] is not None
         rep.count(json.dumps(c, sort_keys=True), nontrivial)
-        for k, v in eqlgen.stats(c).items():
+        for k, v in eqlgen.stats(eqlgen.spec_case(c)).items():
             ops[k] = ops.get(k, 0) + v
         dist["in_fragment"] += int(infrag)
         dist["nonempty_result"] += int(bool(s))
@@ -279,7 +293,7 @@ def run_check(prop: str, tier: str, seed: int, replay: Optional[dict], *, profil
     # ---- violations: shrink and report (at most 3)
     def still_bad(c, i, m, s):
         return in_scope(c) and view(i, mode) != view(s, mode) and (in_fragment(c) or m is None or view(i, mode) != view(m, mode)
-                                                    or not any(k in open_classes for k in eqlgen.classes(c)))
+                                                    or not any(k in open_classes for k in classes_of(c)))
 
     for c, i, m, s, o in bad[:3]:
         small = c
@@ -290,7 +304,7 @@ def run_check(prop: str, tier: str, seed: int, replay: Optional[dict], *, profil
         i2 = eqlgen.run_impl(small)
         m2, s2 = coq_rows(prop, [small], model_ok)[0]
         rep.violation({"kind": "counterexample", "origin": o, "case": small, "original_case": c,
-                       "classes": eqlgen.classes(small), "in_fragment": in_fragment(small), "compared_as": mode,
+                       "classes": classes_of(small), "in_fragment": in_fragment(small), "compared_as": mode,
                        "impl": i2, "model": m2, "spec": s2, "python": eqlgen.snippet(small),
                        "explanation": "rows as lists of [kind, payload]: [0,int] [1,object id] [2,[ints]] [3,[object ids]]; "
                                       "impl = an(entity/set_of(...)).evaluate() through the public API; spec = first-order answers (Eql/Sat.v)"})
@@ -305,9 +319,10 @@ def run_check(prop: str, tier: str, seed: int, replay: Optional[dict], *, profil
         except Exception as e:  # noqa
             rep.oblige(f"witness:{f.fid}", False, f"cannot read {f.witness}: {e}")
             continue
-        if "case" in w:
-            got = eqlgen.run_impl(w["case"])
-            spec = coq_rows(prop, [w["case"]], False)[0][1]
+        wcase = w.get("case") or w.get("witness_case")   # "witness_case": replayed here only, not run as a corpus case
+        if wcase is not None:
+            got = eqlgen.run_impl(wcase)
+            spec = coq_rows(prop, [wcase], False)[0][1]
             fails = view(got, mode) != view(spec, mode)
             as_recorded = view(got, mode) == view(w.get("impl_recorded"), mode)
         else:
@@ -321,14 +336,14 @@ def run_check(prop: str, tier: str, seed: int, replay: Optional[dict], *, profil
             elif fails:
                 rep.violation({"kind": "counterexample", "finding": f.fid, "witness": f.witness, "impl": got,
                                "impl_recorded": w.get("impl_recorded"), "spec": w.get("spec"),
-                               "python": w.get("python") or eqlgen.snippet(w["case"]),
+                               "python": w.get("python") or eqlgen.snippet(wcase),
                                "explanation": "the witness of a listed finding now fails in a different way than recorded"})
             else:
                 rep.note(f"finding {f.fid} no longer reproduces (witness now meets the Spec)")
         else:
             if fails:
                 rep.violation({"kind": "counterexample", "finding": f.fid, "witness": f.witness, "impl": got,
-                               "spec": w.get("spec"), "python": w.get("python") or eqlgen.snippet(w["case"]),
+                               "spec": w.get("spec"), "python": w.get("python") or eqlgen.snippet(wcase),
                                "explanation": f"regression: defect repaired in {f.commit} is back"})
     # instances of classes that are not listed at all would have been reported above as violations
     rep.extra["distribution"] = dict(dist, operators=ops, known_finding_instances=kf_counts, cases=len(cases))
